@@ -119,6 +119,8 @@ def c09(tier):
             raise Inconclusive("known finding %s did not reproduce: remove it from known_findings.json" % f["id"])
     ck.extra["cases"] = len(allc)
     ck.exhaustive = not p["sample"]
+    import p_reconf
+    p_reconf.reconf(ck, binary, tier, "C09")
     ck.rule = ("all subsets of a 10-tuple universe (chain, diamond, cycles, self-loop, duplicate) x storage orders x depths, plus nodes with 99..201 children; "
                "the real tree is checked against the property operators' inputs printed by TLC (stored tuples, reachable-within-depth, reachable); "
                "non-trivial: >= 3 stored tuples and depth >= 3")
